@@ -333,6 +333,7 @@ func (V *Verifier) pkgByShort(short string) *types.Package {
 
 func (ex *Exec) checkRequires(f *frame, st *State, c *Contract, callee *ssa.Function, sig *types.Signature, recv Term, args []Term, argVals []ssa.Value, pos token.Pos) {
 	env := ex.contractEnv(c, callee, sig, recv, nil, args, st, st)
+	env.goal = true
 	for _, r := range c.Requires {
 		lab := r.Label
 		if lab == "" {
@@ -356,13 +357,15 @@ func shortKey(k string) string {
 func (ex *Exec) applyContract(f *frame, st *State, c *Contract, callee *ssa.Function, sig *types.Signature, recv Term, recvT types.Type, args []Term, argVals []ssa.Value, res ssa.Value, hint string, pos token.Pos) {
 	pre := st.clone()
 	envPre := ex.contractEnv(c, callee, sig, recv, recvT, args, pre, pre)
-	// preconditions
+	// preconditions (goals: quantifiers are skolemised)
+	envGoal := *envPre
+	envGoal.goal = true
 	for _, r := range c.Requires {
 		lab := r.Label
 		if lab == "" {
 			lab = "pre"
 		}
-		v, err := envPre.trans(r.Expr)
+		v, err := envGoal.trans(r.Expr)
 		if err != nil {
 			ex.oblige(f, st, "requires", shortKey(c.Key)+":"+lab+":does-not-attach", r.Label, pos, tFalse, "the contract no longer attaches to the code ("+err.Error()+"): "+r.Text)
 			continue
@@ -400,8 +403,13 @@ func (ex *Exec) applyContract(f *frame, st *State, c *Contract, callee *ssa.Func
 	ex.setResult(f, res, results)
 	envPost := ex.contractEnv(c, callee, sig, recv, recvT, args, st, pre)
 	envPost.extraCands = map[string][]Term{}
-	for _, a := range args {
-		envPost.extraCands[a.Sort] = append(envPost.extraCands[a.Sort], a)
+	for i, a := range args {
+		var at types.Type
+		if i < len(argVals) && argVals[i] != nil {
+			at = argVals[i].Type()
+		}
+		cl := candClass(a.Sort, at)
+		envPost.extraCands[cl] = append(envPost.extraCands[cl], a)
 	}
 	rs := sig.Results()
 	for i := 0; i < rs.Len(); i++ {
@@ -421,6 +429,7 @@ func (ex *Exec) applyContract(f *frame, st *State, c *Contract, callee *ssa.Func
 				continue
 			}
 			ex.assume(st, v.t)
+			ex.recordQ(envPost, e.Expr, st.reach)
 		}
 	}
 }
@@ -715,11 +724,8 @@ func (V *Verifier) verifyFunction(fn *ssa.Function, lockMode bool) *FnResult {
 		}
 	}
 	f.params = params
-	if ex.instCands == nil {
-		ex.instCands = map[string][]Term{}
-	}
-	for _, pt := range params {
-		ex.instCands[pt.Sort] = append(ex.instCands[pt.Sort], pt)
+	for i, pt := range params {
+		ex.addCand(candClass(pt.Sort, fn.Params[i].Type()), pt)
 	}
 	if c != nil && len(c.Modifies) > 0 {
 		ex.frameRef()
@@ -739,6 +745,12 @@ func (V *Verifier) verifyFunction(fn *ssa.Function, lockMode bool) *FnResult {
 				quantified = append(quantified, inv.Expr)
 			}
 		}
+		for _, sa := range c.Sites {
+			quantified = append(quantified, sa.Expr)
+		}
+		for _, e := range c.EachRet {
+			quantified = append(quantified, e.Expr)
+		}
 		var walk func(qe ast.Expr, depth int)
 		walk = func(qe ast.Expr, depth int) {
 			ast.Inspect(qe, func(n ast.Node) bool {
@@ -746,7 +758,7 @@ func (V *Verifier) verifyFunction(fn *ssa.Function, lockMode bool) *FnResult {
 					if id, ok := ce.Fun.(*ast.Ident); ok {
 						if id.Name == "forall" && len(ce.Args) == 3 {
 							if t, err := genv.typeOf(ce.Args[1]); err == nil {
-								ex.skolemFor(types.ExprString(ce), sc.sortOf(t))
+								ex.skolemFor(types.ExprString(ce), sc.sortOf(t), t)
 							}
 						} else if d, ok := V.specs.defines[id.Name]; ok && depth < 8 {
 							walk(d.Body, depth+1) // quantifiers inside macro bodies
@@ -758,6 +770,20 @@ func (V *Verifier) verifyFunction(fn *ssa.Function, lockMode bool) *FnResult {
 		}
 		for _, qe := range quantified {
 			walk(qe, 0)
+		}
+		// quantified preconditions of (statically) called contracted functions are goals of this function too
+		for _, b := range fn.Blocks {
+			for _, ins := range b.Instrs {
+				if call, ok := ins.(ssa.CallInstruction); ok {
+					if callee := call.Common().StaticCallee(); callee != nil {
+						if cc := V.contracts[funcName(callee)]; cc != nil {
+							for _, r := range cc.Requires {
+								walk(r.Expr, 0)
+							}
+						}
+					}
+				}
+			}
 		}
 	}
 	if c != nil {
@@ -773,6 +799,7 @@ func (V *Verifier) verifyFunction(fn *ssa.Function, lockMode bool) *FnResult {
 					continue
 				}
 				sc.assert(v.t)
+				ex.recordQ(env, r.Expr, tTrue)
 			}
 		}
 		ex.inRequires = false
@@ -898,29 +925,17 @@ func (ex *Exec) compSorts(k string) string { return ex.V.compSorts[k] }
 // quantified invariants and callee postconditions assumed along the way are instantiated at it.
 func (ex *Exec) frameRef() Term {
 	t := ex.sc.declare("frameref", SInt)
-	for _, c := range ex.instCands[SInt] {
-		if c.S == t.S {
-			return t
-		}
-	}
-	if ex.instCands == nil {
-		ex.instCands = map[string][]Term{}
-	}
-	ex.instCands[SInt] = append(ex.instCands[SInt], t)
+	ex.addCand("Int#ref", t)
 	return t
 }
 
 func (ex *Exec) frameKey(sort string) Term {
 	t := ex.sc.declare("framekey:"+sort, sort)
-	for _, c := range ex.instCands[sort] {
-		if c.S == t.S {
-			return t
-		}
+	cl := sort
+	if sort == SInt {
+		cl = "Int#idx"
 	}
-	if ex.instCands == nil {
-		ex.instCands = map[string][]Term{}
-	}
-	ex.instCands[sort] = append(ex.instCands[sort], t)
+	ex.addCand(cl, t)
 	return t
 }
 
